@@ -160,7 +160,22 @@ func vSymbolic() bool                   { return false }
 func vDisjoint(a, b interface{}) bool   { return true } // decided by the engine only
 func vNondetCount() int                 { return 0 }
 
+// vRandUnscripted: in harnesses whose native run executes real code that the engine replaced by a stub
+// (cross-package redirects), math/rand draws that the script does not contain get fixed default values.
+var vRandTolerant bool
+
+func vRandUnscripted(on bool) { vRandTolerant = on }
+
 func vRandHook(kind string) (float64, int64) {
+	if vRandTolerant {
+		p := vPos
+		for p < len(vCur.Script) && vCur.Script[p].Kind == "oracle" {
+			p++
+		}
+		if p >= len(vCur.Script) || vCur.Script[p].Kind != kind {
+			return 0.25, 0
+		}
+	}
 	s := vNext(kind)
 	return s.fval(), s.I
 }
@@ -189,6 +204,7 @@ func vRunReplays(entries map[string]func()) {
 				res.Diverged = "unknown entry " + rf.Entry
 			} else {
 				vCur, vPos, vRes = rf, 0, res
+				vRandTolerant = false
 				if rf.Tol > 0 {
 					vTolRel = rf.Tol
 				} else {
